@@ -352,6 +352,7 @@ func cmdCheck(args []string) {
 	var problems []string
 	var lines []string
 	nviol, nreplayed := 0, 0
+	nstale, ndecided := 0, 0
 	knownHit := map[string]bool{}
 	confirmed := map[string]string{}
 	cexDir := filepath.Join(outDir(), "out", "cex", *prop)
@@ -370,7 +371,15 @@ func cmdCheck(args []string) {
 		}
 		switch r.Status {
 		case "PASS":
+			ndecided++
 		case "VIOLATION":
+			ndecided++
+		case "STALE":
+			// the harness reaches into internals that no longer exist under that name: the job cannot be
+			// built for this tree. Reported, counted as not explored; the property is decided by the
+			// remaining jobs (exit 2 below if none remain).
+			nstale++
+			problems = append(problems, fmt.Sprintf("STALE-HARNESS %s(%s): %s", j.H, paramStr(j.P), r.Error))
 		default:
 			problems = append(problems, fmt.Sprintf("%s(%s): %s %v %s", j.H, paramStr(j.P), r.Status, r.Incomplete, r.Error))
 			if exit == 0 {
@@ -445,6 +454,12 @@ func cmdCheck(args []string) {
 		}
 		nvalid++
 		nreplayed++
+	}
+	if nstale > 0 && ndecided == 0 && exit == 0 {
+		exit = 2
+	}
+	if nstale > 0 {
+		fmt.Fprintf(os.Stderr, "NOTE: %d of %d jobs could not be built for this tree (stale harness files); decided on the remaining %d\n", nstale, len(jobs), ndecided)
 	}
 	for _, l := range lines {
 		fmt.Println(l)
